@@ -105,7 +105,8 @@ IsBare(t) == t.child = <<>> /\ t.content = <<>>                      \* may be w
 \* Render: tree + choices -> document
 \* ---------------------------------------------------------------------------
 \* choice record c:
-\*   hdr   0 none | 1 <?xml version="1.0"?> | 2 <?xml version='1.0' encoding="UTF-8" ?> + newline | 3 <?xml?>
+\*   hdr   0 none | 1 <?xml version="1.0"?> | 2 <?xml version='1.0' encoding="UTF-8"?> + newline | 3 <?xml?>
+\*         (whitespace inside the header as chosen by wt)
 \*   q1,q2 preferred quote of the first / every further attribute of a tag ("d" or "s"; a value containing the
 \*         preferred quote is written with the other one)
 \*   rev   attributes in descending instead of ascending name order
@@ -120,13 +121,6 @@ ChoiceSpace == [hdr : 0..3, q1 : {"d", "s"}, q2 : {"d", "s"}, rev : BOOLEAN, sel
             wt : 0..2, we : 0..1, wc : 0..2, cm : 0..4, tp : 0..2]
 Plain == [hdr |-> 0, q1 |-> "d", q2 |-> "d", rev |-> FALSE, selfc |-> TRUE, wt |-> 0, we |-> 0, wc |-> 0, cm |-> 0, tp |-> 0]
 
-Header(h) ==
-  CASE h = 0 -> <<>>
-    [] h = 1 -> <<"<","?","x","m","l"," ","v","e","r","s","i","o","n","=",DQ,"1",".","0",DQ,"?",">">>
-    [] h = 2 -> <<"<","?","x","m","l"," ","v","e","r","s","i","o","n","=",SQ,"1",".","0",SQ," ",
-                  "e","n","c","o","d","i","n","g","=",DQ,"U","T","F","-","8",DQ," ","?",">","\n">>
-    [] h = 3 -> <<"<","?","x","m","l","?",">">>
-
 \* the k-th comment of a document (bodies chosen to look like markup, to hold dashes and quotes)
 CommentBodies == << <<" ","c"," ">>, <<"<","b","/",">">>, <<>>, <<"a","-","b"," ",">","\"","'">>, <<"<","/","a",">">> >>
 GtBodies == << <<">">>, <<"-", ">", " ", "x">> >>      \* legal bodies ("--" does not occur, the last character is no "-")
@@ -140,6 +134,16 @@ EqL(c)     == CASE c.wt = 0 -> <<>> [] c.wt = 1 -> <<" ">> [] c.wt = 2 -> <<"\t"
 EqR(c)     == CASE c.wt = 0 -> <<>> [] c.wt = 1 -> <<" ">> [] c.wt = 2 -> <<"\r","\n">>
 TagTail(c) == CASE c.wt = 0 -> <<>> [] c.wt = 1 -> <<" ">> [] c.wt = 2 -> <<"\n">>
 EndWs(c)   == IF c.we = 1 THEN <<" ">> ELSE <<>>
+
+\* the header; its whitespace follows the in-tag whitespace choice wt
+Header(c) ==
+  LET xml == <<"<","?","x","m","l">>
+      ver(q) == <<"v","e","r","s","i","o","n">> \o EqL(c) \o <<"=">> \o EqR(c) \o <<q,"1",".","0",q>>
+      enc == <<"e","n","c","o","d","i","n","g">> \o EqL(c) \o <<"=">> \o EqR(c) \o <<DQ,"U","T","F","-","8",DQ>>
+  IN CASE c.hdr = 0 -> <<>>
+       [] c.hdr = 1 -> xml \o TagSep(c) \o ver(DQ) \o TagTail(c) \o <<"?",">">>
+       [] c.hdr = 2 -> xml \o TagSep(c) \o ver(SQ) \o TagSep(c) \o enc \o TagTail(c) \o <<"?",">","\n">>
+       [] c.hdr = 3 -> xml \o <<"?",">">>
 
 QuoteFor(v, pref) == LET q == IF pref = "d" THEN DQ ELSE SQ IN
                      IF q \in Chars(v) THEN (IF q = DQ THEN SQ ELSE DQ) ELSE q
@@ -173,7 +177,7 @@ RenderNode(t, c, d) ==
      ELSE open \o <<">">> \o Body(Items(t, kids, c), c, d + 1, d + Len(t.name)) \o <<"<", "/">> \o t.name \o EndWs(c) \o <<">">>
 
 \* the whole document: header, then the root element as the only item of the top level
-Render(t, c) == Header(c.hdr) \o Body(<<RenderNode(t, c, 0)>>, c, 0, 0)
+Render(t, c) == Header(c) \o Body(<<RenderNode(t, c, 0)>>, c, 0, 0)
 
 \* choices that cannot change the document of tree t are fixed, so that (nearly) every (t, c) kept yields its own document
 Relevant(t, c) ==
